@@ -116,7 +116,26 @@ class Session:
             px = c.idx_tuple(op["pixels"]) if op.get("pixels") else None
             UserAddNode(t, op["id"], attrs, pixels=px, force=bool(op["force"]))
         elif k == "delnode":
-            UserDeleteNode(t, op["n"])
+            if op.get("pixels") is not None:
+                # the optional `pixels` argument: "the pixels of the node, if known"
+                UserDeleteNode(t, op["n"], pixels=c.idx_tuple(op["pixels"]))
+            else:
+                UserDeleteNode(t, op["n"])
+        elif k == "regfeat":
+            # a custom feature is registered in the FeatureDict mid-session, through any of the
+            # dict APIs a caller (or the importer: `.update`) may use
+            name = c.keyname[op["key"]]
+            feat = {"feature_type": op["kind"], "value_type": "int", "num_values": 1,
+                    "required": False, "default_value": None}
+            how = op["how"]
+            if how == "setitem":
+                t.features[name] = feat
+            elif how == "update":
+                t.features.update({name: feat})
+            elif how == "ior":
+                t.features |= {name: feat}
+            else:
+                t.features.setdefault(name, feat)
         elif k == "swap":
             UserSwapPredecessors(t, (op["a"], op["b"]))
         elif k == "paint":
@@ -189,7 +208,12 @@ def encode_op(case: F.Case, op: dict) -> str:
         return (f"S addnode {op['id']} {o(op.get('time'))} {o(op.get('tid'))} {o(op.get('lin'))} "
                 + " ".join(case.enc_attrs(other)) + f" {pxs} {op['force']}")
     if k == "delnode":
+        if op.get("pixels") is not None:
+            px = op["pixels"]
+            return f"S delnodepx {op['n']} {len(px)} " + " ".join(map(str, px))
         return f"S delnode {op['n']}"
+    if k == "regfeat":
+        return f"S reg {op['kind']} {op['key']}"
     if k == "swap":
         return f"S swap {op['a']} {op['b']}"
     if k == "paint":
@@ -505,7 +529,7 @@ def registry_problems(case: F.Case, tracks, static: set) -> list[str]:
 # one session
 # ---------------------------------------------------------------------------------------------
 PROP_KINDS = {
-    "C01": ["addedge", "deledge", "addnode", "delnode", "swap", "updattrs", "paint"],
+    "C01": ["addedge", "deledge", "addnode", "delnode", "delnode", "swap", "updattrs", "updattrs", "paint", "regfeat"],
     "C02": ["addedge", "deledge", "addnode", "delnode", "swap", "updattrs", "paint", "undo", "undo", "undo", "redo", "redo"],
     "C03": ["addedge", "addedge", "deledge", "addnode", "addnode", "delnode", "swap", "paint", "undo", "redo"],
     "C04": ["addedge", "deledge", "addnode", "delnode", "swap", "paint", "undo", "redo"],
